@@ -277,6 +277,9 @@ func obsKey(o Obs) string {
 	if o.Err != "" {
 		return "ERR:" + o.Err
 	}
+	if (o.Stats && len(o.Groups) == 0) || (!o.Stats && len(o.Ids) == 0 && !o.Dup) {
+		return "EMPTY" // an aggregation over no matching event comes back without measure rows
+	}
 	if o.Stats {
 		return "G:" + strings.Join(o.Groups, " ; ")
 	}
@@ -478,6 +481,7 @@ func e2eComparable(evs []Event, q Query, l LayoutCfg) bool {
 type evalCtx struct {
 	sum   *vhlib.Summary
 	win   []string
+	bidx  []string
 	e2e   []string
 	mu    sync.Mutex
 	cfg   vhlib.Config
@@ -509,6 +513,9 @@ func (c *evalCtx) evaluate(st Stream, res streamResult) {
 		}
 		if l.Windows {
 			c.windowCases(st, l, out)
+		}
+		if l.DumpRanges != "" {
+			c.blockIndexCases(st, l, out)
 		}
 		for qi, q := range st.Queries {
 			got := out.Obs[qi]
@@ -623,6 +630,51 @@ func (c *evalCtx) evaluate(st Stream, res streamResult) {
 			}
 			c.sum.Fail(class, detail, map[string]interface{}{"stream": st.Name, "events": docs, "layout": l, "query": q.Text, "got": got, "want": want[qi]})
 		}
+	}
+}
+
+// the range entry the open segment holds per block for a column fed with numbers and numeric strings: Coq case
+// (block_index) and the property on the observation: the entry contains every value, string-origin ones included
+func (c *evalCtx) blockIndexCases(st Stream, l LayoutCfg, out *WorkerOut) {
+	col := l.DumpRanges
+	blocks := layoutBlocks(l, len(st.Events))
+	if len(out.Ranges) != len(blocks) {
+		c.sum.HarnessError(fmt.Sprintf("stream %s layout %s: %d block range observations for %d blocks", st.Name, l.Name, len(out.Ranges), len(blocks)))
+		return
+	}
+	sort.Slice(out.Ranges, func(i, j int) bool { return out.Ranges[i].Block < out.Ranges[j].Block })
+	for bi, blk := range blocks {
+		r := out.Ranges[bi]
+		var cells []string
+		for _, ei := range blk {
+			v, ok := st.Events[ei].Fields[col]
+			switch {
+			case !ok:
+				cells = append(cells, "RAbsent")
+			case v.Kind == "i":
+				cells = append(cells, "RNum (VI "+cz(v.I)+")")
+			case v.Kind == "f":
+				cells = append(cells, "RNum (VF "+cq(v.F)+")")
+			default:
+				cells = append(cells, "RStr "+cbytes(v.S))
+			}
+			if ok && (v.Kind == "i" || v.Kind == "n") {
+				in := r.Kind == 2 && ((r.Range.NumType == 1 && v.I >= r.Range.Min_int64 && v.I <= r.Range.Max_int64) ||
+					(r.Range.NumType == 0 && v.I >= 0 && uint64(v.I) >= r.Range.Min_uint64 && uint64(v.I) <= r.Range.Max_uint64) ||
+					(r.Range.NumType == 2 && float64(v.I) >= r.Range.Min_float64 && float64(v.I) <= r.Range.Max_float64))
+				if !in {
+					c.sum.Fail("range_index_misses_value_of_block", fmt.Sprintf("block %d of the open segment (layout %s) holds %s=%s but its range micro index is kind %d type %d [%d,%d]: a filter on a literal outside it prunes the block", bi, l.Name, col, st.Events[ei].doc(), r.Kind, r.Range.NumType, r.Range.Min_int64, r.Range.Max_int64), map[string]interface{}{"stream": st.Name, "layout": l, "block": bi, "event": st.Events[ei].doc(), "range": r})
+				}
+			}
+		}
+		obs := "None"
+		if r.Kind == 2 {
+			rr := r.Range
+			obs = "(Some " + numbersCoq(&rr) + ")"
+		}
+		c.bidx = append(c.bidx, fmt.Sprintf("(%s, %s)", vhlib.CoqList(cells), obs))
+		c.sum.Eval(fmt.Sprintf("block_index/%s/%s/%d", st.Name, l.Name, bi), true)
+		c.sum.Count("direct/block_range_index_after_flush")
 	}
 }
 
@@ -1125,4 +1177,5 @@ func runMeta(cfg vhlib.Config, sum *vhlib.Summary, rng *vhlib.Rng) {
 	}
 	shard(sum, cfg.Out, "cases_e2e", "check_e2e", ctx.e2e, 350)
 	shard(sum, cfg.Out, "cases_window", "check_window", ctx.win, 60)
+	shard(sum, cfg.Out, "cases_block_index", "check_block_index", ctx.bidx, 300)
 }
